@@ -21,7 +21,8 @@ def run(ctx, intensify=False):
     kinds = {}
     for r in results:
         kinds[r["invalid"]] = kinds.get(r["invalid"], 0) + 1
-    res.suites.append({"name": "K-valid", "cases": len(results), "observations": len(results), "disagreements": [],
+    dis, ncorr = kvalid.correspondence(results)
+    res.suites.append({"name": "K-valid", "cases": ncorr, "observations": len(results), "disagreements": dis,
                        "inconclusive": 0, "distribution": {"invalid_kinds": kinds,
                                                            "classes": len({r["cls"] for r in results}),
                                                            "parameters": len({(r["cls"], r["param"]) for r in results})}})
